@@ -3,10 +3,21 @@
     the Go libraries directly (own template set-up: aliases, missingkey=zero; own context built like the model's). *)
 From Coq Require Import List String Ascii ZArith NArith Bool.
 From PintV Require Import Common.Bytes.
-From PintV Require Export Model.TemplatedRegexp.
+From PintV Require Export Model.TemplatedRegexp Model.TemplatedRegexpBlocks.
 Import ListNotations.
 Open Scope string_scope.
 Open Scope list_scope.
+
+(** a block-level observation: Rule.validate verdict, number of checks parseRule built, String() of the first check
+    (None = panic), and whether every String()/Check() call on this rule returned without panic *)
+Record block_obs := {
+  b_kind : N;                                     (* 0 annotation, 1 label, 2 reject, 3 name, 4 aggregate *)
+  b_key : string; b_token : string; b_value : string;
+  b_obs_valid : bool;
+  b_obs_nchecks : N;
+  b_obs_string : option string;
+  b_obs_check_ok : bool
+}.
 
 Record case := {
   c_id : N;
@@ -19,7 +30,8 @@ Record case := {
   c_compile : list (string * bool);               (* regexp text -> compiles *)
   c_obs_new_ok : bool;
   c_obs_expand : option string;                   (* Expand(rule): Some (re.String()) | None = error; only when new ok *)
-  c_obs_must : string                             (* MustExpand(rule).String(); only when new ok *)
+  c_obs_must : string;                            (* MustExpand(rule).String(); only when new ok *)
+  c_block : option block_obs                      (* Some = a block-level case (the three c_obs_* fields are unused) *)
 }.
 
 Fixpoint pairs_eqb (a b : list (string * string)) : bool :=
@@ -48,7 +60,49 @@ Definition o_compile (c : case) (s : string) : option string :=
 Definition opt_eqb (a b : option string) : bool :=
   match a, b with Some x, Some y => String.eqb x y | None, None => true | _, _ => false end.
 
-Definition check (c : case) : list string :=
+Definition outcome_str_eqb (m : outcome string) (o : option string) : bool :=
+  match m, o with Ok a, Some b => String.eqb a b | Crash _, None => true | _, _ => false end.
+
+Definition check_block (c : case) (b : block_obs) : list string :=
+  let P := o_parse c in let E := o_exec c in let C := o_compile c in
+  let tables_ok :=
+    forallb (fun text => match assoc text (c_parse c) with Some _ => true | None => false end)
+      (match b_kind b with
+       | 0%N | 1%N => [(aliases ++ "^" ++ b_key b ++ "$")%string; (aliases ++ b_token b)%string; (aliases ++ "^" ++ b_value b ++ "$")%string]
+       | _ => [(aliases ++ "^" ++ b_key b ++ "$")%string]
+       end) in
+  (if tctx_eqb (new_template_context (c_rule c)) (c_ctx c) then [] else ["template-context"]) ++
+  (if tables_ok then [] else ["oracle-table-incomplete"]) ++
+  (match assoc never_matching (c_compile c) with Some true => [] | _ => ["never-matching-pattern-does-not-compile"] end) ++
+  match b_kind b with
+  | 0%N | 1%N =>
+      let s := {| ks_key := b_key b; ks_token := b_token b; ks_value := b_value b |} in
+      let k := build_kv string string P E C s in
+      let str := kv_string (if N.eqb (b_kind b) 0 then "alerts/annotation" else "rule/label") true k in
+      (if Bool.eqb (validate_kv string string P E C s) (b_obs_valid b) then [] else ["block-validate"]) ++
+      (if N.eqb (b_obs_nchecks b) 1 then [] else ["block-number-of-checks"]) ++
+      (if outcome_str_eqb str (b_obs_string b) then [] else ["block-string"]) ++
+      (if is_ok str && forallb is_ok (kv_uses string string P E C k (c_rule c)) && negb (b_obs_check_ok b) then ["block-model-total-impl-crashes"] else [])
+  | 2%N =>
+      let cs := build_reject string string P E C (b_key b) true true true true in
+      (if Bool.eqb (validate_reject string string P E C (b_key b)) (b_obs_valid b) then [] else ["block-validate"]) ++
+      (if N.eqb (b_obs_nchecks b) (N.of_nat (List.length cs)) then [] else ["block-number-of-checks"]) ++
+      (if forallb (fun k => forallb is_ok (reject_uses string string P E C k (c_rule c))) cs && negb (b_obs_check_ok b) then ["block-model-total-impl-crashes"] else [])
+  | 3%N =>
+      let k := build_single string string P E C (b_key b) in
+      let str := single_string "rule/name" k in
+      (if Bool.eqb (validate_single string string P E C (b_key b)) (b_obs_valid b) then [] else ["block-validate"]) ++
+      (if N.eqb (b_obs_nchecks b) 1 then [] else ["block-number-of-checks"]) ++
+      (if outcome_str_eqb str (b_obs_string b) then [] else ["block-string"]) ++
+      (if is_ok str && forallb is_ok (single_uses string string P E C k (c_rule c)) && negb (b_obs_check_ok b) then ["block-model-total-impl-crashes"] else [])
+  | _ =>
+      let k := build_aggregate string string P E C (b_key b) in
+      (if Bool.eqb (validate_aggregate string string P E C (b_key b)) (b_obs_valid b) then [] else ["block-validate"]) ++
+      (if N.eqb (b_obs_nchecks b) 1 then [] else ["block-number-of-checks"]) ++
+      (if forallb is_ok (single_uses string string P E C k (c_rule c)) && negb (b_obs_check_ok b) then ["block-model-total-impl-crashes"] else [])
+  end.
+
+Definition check_template (c : case) : list string :=
   let built := if c_raw c then new_raw_templated string string (o_parse c) (o_exec c) (o_compile c) (c_pattern c)
                else new_templated string string (o_parse c) (o_exec c) (o_compile c) (c_pattern c) in
   (if tctx_eqb (new_template_context (c_rule c)) (c_ctx c) then [] else ["template-context"]) ++
@@ -67,6 +121,9 @@ Definition check (c : case) : list string :=
          | Crash _ => ["must-expand-crash"]
          end)
   end.
+
+Definition check (c : case) : list string :=
+  match c_block c with Some b => check_block c b | None => check_template c end.
 
 Fixpoint mismatches (cs : list case) : list (N * string) :=
   match cs with
